@@ -349,8 +349,53 @@ def plan_c02(prop, tier, seed, t0):
     over = dict(AckRefs={1, 2, 99}, ModSecs={0}, Advances={1, 2}, MaxOps=6, MaxNow=6)
     return core_check(prop, tier, seed, t0, over, explore=[("data", 48, 1500)],
                       extra_scenarios=lambda quick, sd: stream_ctrl_scenarios(sd, quick)
-                      + cancel_scenarios(sd, kinds={"Pull", "Ack"}, quick=quick),
+                      + cancel_scenarios(sd, kinds={"Pull", "Ack"}, quick=quick) + big_batch_scenarios(sd, quick),
                       thorough={"mc": dict(MaxOps=7, MaxMsgs=3, AckRefs={1, 2, 3, 99})})
+
+
+def big_batch_scenarios(seed, quick):
+    """Acknowledge / ModifyAckDeadline requests (unary and inside a StreamingPull control message)
+    that name hundreds of deliveries in one request: all of them are carried out."""
+    out = []
+    for i, n in enumerate((257, 300) if quick else (257, 300, 513, 1000)):
+        for kind in ("ack", "nack", "stream-ack", "extend"):
+            acks = [{"d": j} for j in range(1, n + 1)]
+            steps = [call(1, op="CreateTopic", name=T1), call(1, op="CreateSub", name=S1, topic=T1, ack=10),
+                     call(1, op="Publish", topic=T1, msgs=[{"p": "bulk:%d" % n}])]
+            if kind == "stream-ack":
+                steps += [{"do": "sopen", "h": "s", "c": 2, "sub": S1, "max": 1000}, {"do": "settle"},
+                          {"do": "ssend", "h": "s", "acks": acks}, {"do": "settle"}, {"do": "quiet"}]
+            else:
+                steps.append(call(2, op="Pull", sub=S1, max=1000, ri=True))
+                if kind == "ack":
+                    steps.append(call(2, op="Ack", sub=S1, acks=acks))
+                elif kind == "nack":
+                    steps += [call(2, op="ModAck", sub=S1, acks=acks, secs=0), call(2, op="Pull", sub=S1, max=1000, ri=True)]
+                else:
+                    steps.append(call(2, op="ModAck", sub=S1, acks=acks, secs=30))
+            steps += [{"do": "advance", "ms": 11000}, call(3, op="Pull", sub=S1, max=1000, ri=True),
+                      {"do": "advance", "ms": 25000}, call(3, op="Pull", sub=S1, max=1000, ri=True)]
+            if kind == "stream-ack":
+                steps.append({"do": "sabandon", "h": "s"})
+            steps.append({"do": "drain", "c": 9})
+            out.append(scn("bigbatch-%s-%d" % (kind, n), steps, seed=seed + i))
+    return out
+
+
+def empty_batch_scenarios(seed):
+    """Requests whose batch is empty (no ack ids, no messages, no modifications) are still addressed
+    to a name: on an absent or deleted name they answer NOT_FOUND like any other request."""
+    S9, T9 = "projects/p1/subscriptions/s4", "projects/p1/topics/t4"
+    def probes(c):
+        return [call(c, op="Ack", sub=S1, acks=[]), call(c, op="ModAck", sub=S1, acks=[], secs=0),
+                call(c, op="ModAck", sub=S1, acks=[], secs=30), call(c, op="Ack", sub=S9, acks=[]),
+                call(c, op="ModAck", sub=S9, acks=[], secs=10), call(c, op="Publish", topic=T9, msgs=[]),
+                call(c, op="Publish", topic=T1, msgs=[]), call(c, op="Pull", sub=S9, max=1, ri=True),
+                call(c, op="Pull", sub=S1, max=1, ri=True)]
+    steps = probes(2) + [call(1, op="CreateTopic", name=T1)] + probes(3) + [call(1, op="CreateSub", name=S1, topic=T1, ack=10)] \
+        + probes(4) + [call(1, op="Publish", topic=T1, msgs=[{"p": "e1"}])] + probes(5) \
+        + [call(1, op="DeleteSub", name=S1)] + probes(6) + [call(1, op="DeleteTopic", name=T1)] + probes(7) + [{"do": "drain", "c": 9}]
+    return [scn("empty-batches", steps, seed=seed)]
 
 
 def stream_ctrl_scenarios(seed, quick):
@@ -373,10 +418,13 @@ def stream_ctrl_scenarios(seed, quick):
     for k, (name, msgs) in enumerate(shapes):
         for cap in ((16, 1) if quick else (16, 1, 2)):
             for gap in ((0,) if quick else (0, 1, 3)):
+                # the stream has been open for a while when the messages and the control messages come
+                age = (0, 8000, 25000, 3000)[(k + cap) % 4]
                 steps = [call(1, op="CreateTopic", name=T1), call(1, op="CreateSub", name=S1, topic=T1, ack=10),
                          {"do": "sopen", "h": "s", "c": 2, "sub": S1, "max": 10}, {"do": "settle"},
+                         {"do": "advance", "ms": age},
                          call(1, op="Publish", topic=T1, msgs=[{"p": "sc%d-a" % k}, {"p": "sc%d-b" % k}, {"p": "sc%d-c" % k}]),
-                         {"do": "settle"}, Q]
+                         {"do": "settle"}, Q, {"do": "advance", "ms": (0, 2000, 500)[k % 3]}]
                 for m in msgs:
                     step = {"do": "ssend", "h": "s"}
                     step.update(m)
@@ -404,29 +452,44 @@ def plan_c03(prop, tier, seed, t0):
                       thorough={"mc": dict(MaxOps=7, MaxMsgs=3)})
 
 
-def deadline_probe_scenarios(seed, quick):
+def deadline_probe_scenarios(seed, quick, abandon=False):
     """Several deliveries whose deadlines lie close together, and a request to the subscription 1 ms
     before, at, and just after every deadline (and between them). The instants are aimed with the
-    implementation's rounding rule (deadline = hand-out + D + phase); the verdict never uses them."""
+    implementation's rounding rule (deadline = hand-out + D + phase); the verdict never uses them.
+    abandon: the deliveries go to a StreamingPull consumer that is then abandoned without having
+    acknowledged anything (C16: they are redelivered after their deadlines)."""
     out = []
     phases = (0, 1, 37, 50, 99) if quick else tuple(range(0, 100, 3))
     gaps = ((1,), (3,), (5, 1), (40,), (150, 2), (99,)) if quick else ((1,), (2,), (3,), (4,), (5,), (6,), (5, 1), (1, 1, 1), (40,), (99,), (100,), (150, 2), (998,))
+    if abandon:
+        phases = (0, 37) if quick else (0, 1, 37, 50, 73, 99)
+        gaps = ((1,), (3,), (5, 1), (12, 7), (19,)) if quick else ((1,), (2,), (3,), (5,), (5, 1), (1, 1, 1), (12, 7), (19,), (20,), (21,), (40,), (99,))
     n = 0
     for p in phases:
         for gap in gaps:
             n += 1
             d_ms = 10000 if n % 2 else 12000
-            steps = [call(1, op="CreateTopic", name=T1), call(1, op="CreateSub", name=S1, topic=T1, ack=d_ms // 1000),
-                     call(1, op="Publish", topic=T1, msgs=[{"p": "d%d" % j} for j in range(len(gap) + 2)])]
+            steps = [call(1, op="CreateTopic", name=T1), call(1, op="CreateSub", name=S1, topic=T1, ack=d_ms // 1000)]
             t = 0
             dls = []
-            steps.append(call(2, op="Pull", sub=S1, max=1, ri=True))
+            if abandon:
+                # every publish is handed to the waiting stream at once: hand-out instant = publish instant
+                steps += [{"do": "sopen", "h": "s", "c": 2, "sub": S1, "max": 10}, {"do": "settle"},
+                          call(1, op="Publish", topic=T1, msgs=[{"p": "d0"}]), {"do": "settle"}]
+            else:
+                steps += [call(1, op="Publish", topic=T1, msgs=[{"p": "d%d" % j} for j in range(len(gap) + 2)]),
+                          call(2, op="Pull", sub=S1, max=1, ri=True)]
             dls.append(t + d_ms + (p + t) % 100)
-            for g in gap:
+            for j, g in enumerate(gap):
                 steps.append({"do": "advance", "ms": g})
                 t += g
-                steps.append(call(2, op="Pull", sub=S1, max=1, ri=True))
+                if abandon:
+                    steps += [call(1, op="Publish", topic=T1, msgs=[{"p": "d%d" % (j + 1)}]), {"do": "settle"}]
+                else:
+                    steps.append(call(2, op="Pull", sub=S1, max=1, ri=True))
                 dls.append(t + d_ms + (p + t) % 100)
+            if abandon:
+                steps.append({"do": "sabandon", "h": "s"})
             probes = set()
             for dl in dls:
                 probes.update([dl - 1, dl, dl + 1, dl + 3])
@@ -438,7 +501,7 @@ def deadline_probe_scenarios(seed, quick):
                 t = at
                 steps.append(call(3, op="GetSub", name=S1))
             steps += [{"do": "advance", "ms": 1500}, call(3, op="GetSub", name=S1), {"do": "drain", "c": 9}]
-            out.append(scn("c04-probe-%d" % n, steps, seed=seed + n, phase=p))
+            out.append(scn(("c16-probe-%d" if abandon else "c04-probe-%d") % n, steps, seed=seed + n, phase=p))
     return out
 
 
@@ -477,7 +540,8 @@ def plan_c05(prop, tier, seed, t0):
                 ]})
         return out
     return core_check(prop, tier, seed, t0, over, explore=[("data", 32, 1000), ("consumers", 16, 1000)],
-                      extra_scenarios=lambda quick, sd: extra(quick, sd) + stream_ctrl_scenarios(sd, quick),
+                      extra_scenarios=lambda quick, sd: extra(quick, sd) + stream_ctrl_scenarios(sd, quick)
+                      + [x for x in big_batch_scenarios(sd, quick) if "ack-" not in x["id"] or "nack" in x["id"]],
                       thorough={"mc": dict(MaxOps=8, MaxMsgs=3, SubNames={S1, S2})})
 
 
@@ -499,6 +563,18 @@ def plan_c08(prop, tier, seed, t0):
                           call(5, op="Pull", sub=S2, max=7, ri=True), call(5, op="Pull", sub=S2, max=1000, ri=True),
                           {"do": "drain", "c": 9}]
                 out.append(scn("c08-big-%d-%d" % (i, order), steps, seed=sd + i, cap=(16, 1, 2)[i % 3]))
+        # messages with ordering keys (in no particular key order), with and without keys mixed: the
+        # request's order is the delivery order and ids[i] is the id of message i
+        keysets = [["b", "", "a", "b"], ["z", "y", "x"], ["", "k", ""], ["a", "a", "b", "a"], ["2", "10", "1"]]
+        for i, keys in enumerate(keysets if not quick else keysets[:3]):
+            msgs = [{"p": ("key:%s:ok%d-%d" % (kk, i, j)) if kk else ("ok%d-%d" % (i, j))} for j, kk in enumerate(keys)]
+            steps = [call(1, op="CreateTopic", name=T1), call(1, op="CreateSub", name=S1, topic=T1, ack=10),
+                     call(1, op="CreateSub", name=S2, topic=T1, ack=10),
+                     call(2, op="Publish", topic=T1, msgs=msgs), call(2, op="Publish", topic=T1, msgs=list(reversed(msgs))),
+                     call(4, op="Pull", sub=S1, max=3, ri=True), call(4, op="Pull", sub=S1, max=100, ri=True),
+                     {"do": "sopen", "h": "s", "c": 5, "sub": S2, "max": 100}, {"do": "settle"}, {"do": "sabandon", "h": "s"},
+                     {"do": "drain", "c": 9}]
+            out.append(scn("c08-keys-%d" % i, steps, seed=sd + i))
         return out
     return core_check(prop, tier, seed, t0, over, explore=[("data", 64, 3000), ("mixed", 16, 1000), ("mt:pubrace", 300, 20000)], caps=(16, 1, 2),
                       extra_scenarios=extra, thorough={"mc": dict(MaxOps=8, MaxMsgs=5)}, turns=True)
@@ -524,7 +600,8 @@ def plan_c10(prop, tier, seed, t0):
                 OpKinds={"CreateTopic", "DeleteTopic", "CreateSub", "DeleteSub", "GetTopic", "GetSub", "Publish", "Pull", "Ack", "ModAck"},
                 MaxOps=5, MaxMsgs=1)
     return core_check(prop, tier, seed, t0, over, explore=[("churn", 64, 3000), ("mt:churnrace", 300, 20000), ("mt:cdrace", 300, 20000)],
-                      extra_scenarios=lambda quick, sd: inflight_delete_scenarios(sd, quick) + inflight_topic_delete_scenarios(sd, quick),
+                      extra_scenarios=lambda quick, sd: inflight_delete_scenarios(sd, quick) + inflight_topic_delete_scenarios(sd, quick)
+                      + empty_batch_scenarios(sd),
                       thorough={"mc": dict(MaxOps=6)}, turns=True)
 
 
@@ -627,7 +704,8 @@ def plan_c15(prop, tier, seed, t0):
     def waiting(quick, sd):
         return [s for s in c06_scenarios(6 if quick else 60, sd)
                 if any(w in s["id"] for w in ("-W1-", "-W2-", "-W3-", "-W4-", "-W5-", "-W10-", "-W11-", "-W12-"))]
-    return core_check(prop, tier, seed, t0, over, extra_scenarios=lambda quick, sd: extra(quick, sd) + waiting(quick, sd),
+    return core_check(prop, tier, seed, t0, over, extra_scenarios=lambda quick, sd: extra(quick, sd) + waiting(quick, sd)
+                      + inflight_delete_scenarios(sd, quick),
                       explore=[("data", 32, 1000), ("consumers", 16, 1000)],
                       thorough={"mc": dict(MaxOps=7, MaxMsgs=5)})
 
@@ -802,7 +880,11 @@ def inflight_delete_scenarios(seed, quick):
                call(3, op="ListSubs", project="projects/p1", size=0, token=""),
                start("d2", 4, op="DeleteSub", name=S1), {"do": "yield", "n": 2}]
         steps += mid[k % 3:] + mid[:k % 3]
+        # a consumer that starts waiting while the deletion is in flight: released with an error
+        # status when the deletion completes, never answered with an empty OK before its wait limit
+        steps += [start("bp", 8, op="Pull", sub=S1, max=1, ri=False), {"do": "settle"}]
         steps += [{"do": "gate", "name": "t.turn", "turns": -1}, {"do": "wait", "h": "d"}, {"do": "wait", "h": "d2"},
+                  {"do": "wait", "h": "bp"},
                   {"do": "swait", "h": "s"},
                   call(5, op="GetSub", name=S1), call(5, op="CreateSub", name=S1, topic=T1, ack=10),
                   call(5, op="ListTopicSubs", topic=T1, size=0, token=""),
@@ -1277,7 +1359,10 @@ def plan_c16(prop, tier, seed, t0):
     # ... plus the wake-up hand-over families of C06 in which a waiting or woken consumer is
     # abandoned (W5, W7, W8): a subscription wedged by an abandoned consumer is a C16 matter too
     handover = [s for s in c06_scenarios(6 if quick else 60, seed) if any(w in s["id"] for w in ("-W5-", "-W7-", "-W8-"))]
-    return scenario_check(prop, tier, seed, t0, cancel_scenarios(seed, quick=quick) + handover, mc=c16_mc,
+    # ... and the deliveries of an abandoned streaming consumer come back after their deadlines, also
+    # when those lie a few milliseconds apart and requests arrive in between
+    return scenario_check(prop, tier, seed, t0, cancel_scenarios(seed, quick=quick) + handover
+                          + deadline_probe_scenarios(seed, quick, abandon=True), mc=c16_mc,
                           explore=[("consumers", 48, 2000), ("mixed", 32, 1000)])
 
 
